@@ -34,83 +34,122 @@ theorem refsKeys_cons (params : List Bytes) (env : Env) (k : Bytes) (b : List By
     refsKeys params env (k :: b) = refsKeys params env [k] ++ refsKeys params env b :=
   refsKeys_append params env [k] b
 
-/-- `m` visits the keys `ks` -/
-def FramedKeys (params : List Bytes) (m : C Unit) (ks : List Bytes) : Prop :=
-  Framed m (fun env => KeysBound params env ks) (fun env => refsKeys params env ks) []
+theorem LoopsOk_nil (env : Env) : LoopsOk env [] ↔ True := by simp [LoopsOk]
+
+theorem LoopsOk_append (env : Env) (a b : List LoopOcc) :
+    LoopsOk env (a ++ b) ↔ LoopsOk env a ∧ LoopsOk env b := by
+  simp only [LoopsOk, List.mem_append]
+  constructor
+  · intro h
+    exact ⟨fun k hk => h k (Or.inl hk), fun k hk => h k (Or.inr hk)⟩
+  · rintro ⟨h1, h2⟩ k (hk | hk)
+    · exact h1 k hk
+    · exact h2 k hk
+
+theorem LoopsOk_single (env : Env) (o : LoopOcc) : LoopsOk env [o] ↔ LoopArgOk env o := by
+  simp [LoopsOk]
+
+theorem ExprsOk_nil (params : List Bytes) (env : Env) : ExprsOk params env [] [] ↔ True := by
+  simp [ExprsOk, KeysBound_nil, LoopsOk_nil]
+
+theorem ExprsOk_append (params : List Bytes) (env : Env) (a b : List Bytes) (l m : List LoopOcc) :
+    ExprsOk params env (a ++ b) (l ++ m) ↔ ExprsOk params env a l ∧ ExprsOk params env b m := by
+  simp only [ExprsOk, KeysBound_append, LoopsOk_append]
+  constructor
+  · rintro ⟨⟨h1, h2⟩, h3, h4⟩
+    exact ⟨⟨h1, h3⟩, h2, h4⟩
+  · rintro ⟨⟨h1, h3⟩, h2, h4⟩
+    exact ⟨⟨h1, h2⟩, h3, h4⟩
+
+/-- `m` visits the keys `ks` and the loop-function occurrences `ls` -/
+def FramedKeys (params : List Bytes) (m : C Unit) (ks : List Bytes) (ls : List LoopOcc) : Prop :=
+  Framed m (fun env => ExprsOk params env ks ls) (fun env => refsKeys params env ks) []
 
 section
 variable {params : List Bytes}
 
-theorem FramedKeys.nil : FramedKeys params (pure ()) [] :=
-  Framed.pure.congr (fun env => KeysBound_nil params env) (fun _ => rfl)
+theorem FramedKeys.nil : FramedKeys params (pure ()) [] [] :=
+  Framed.pure.congr (fun env => ExprsOk_nil params env) (fun _ => rfl)
 
-theorem FramedKeys.seq {a b : C Unit} {ks ks' : List Bytes}
-    (ha : FramedKeys params a ks) (hb : FramedKeys params b ks') :
-    FramedKeys params (a >>= fun _ => b) (ks ++ ks') :=
+theorem FramedKeys.seq {a b : C Unit} {ks ks' : List Bytes} {ls ls' : List LoopOcc}
+    (ha : FramedKeys params a ks ls) (hb : FramedKeys params b ks' ls') :
+    FramedKeys params (a >>= fun _ => b) (ks ++ ks') (ls ++ ls') :=
   (Framed.seq ha hb).congr
-    (fun env => by simp [KeysBound_append])
+    (fun env => by simp [ExprsOk_append])
     (fun env => by simp [refsKeys_append])
 
-theorem FramedKeys.inScope {a : C Unit} {ks : List Bytes} (ha : FramedKeys params a ks) :
-    FramedKeys params (inScope a) ks := Framed.inScope ha
+theorem FramedKeys.inScope {a : C Unit} {ks : List Bytes} {ls : List LoopOcc}
+    (ha : FramedKeys params a ks ls) : FramedKeys params (inScope a) ks ls := Framed.inScope ha
 
-theorem FramedKeys.visitKey (k : Bytes) : FramedKeys params (visitKey params k) [k] :=
-  Framed.visitKey params k
+theorem FramedKeys.visitKey (k : Bytes) : FramedKeys params (visitKey params k) [k] [] :=
+  (Framed.visitKey params k).congr (fun env => by simp [ExprsOk, LoopsOk_nil]) (fun _ => rfl)
 
-theorem FramedKeys.of_eq {a : C Unit} {ks ks' : List Bytes} (ha : FramedKeys params a ks) (h : ks = ks') :
-    FramedKeys params a ks' := h ▸ ha
+/-- the check a function node adds before its arguments are visited -/
+theorem FramedKeys.loopCheck (name : Bytes) (args : ExprList) :
+    FramedKeys params (if Check.loopFn name then checkLoopFunc args else pure ()) []
+      (if Check.loopFn name then [(name, args)] else []) := by
+  cases Check.loopFn name with
+  | false => exact FramedKeys.nil
+  | true =>
+    exact (Framed.checkLoopFunc name args).congr
+      (fun env => by simp [ExprsOk, KeysBound_nil, LoopsOk_single]) (fun _ => rfl)
+
+theorem FramedKeys.of_eq {a : C Unit} {ks ks' : List Bytes} {ls : List LoopOcc}
+    (ha : FramedKeys params a ks ls) (h : ks = ks') : FramedKeys params a ks' ls := h ▸ ha
 
 mutual
-  theorem framed_expr : (e : Expr) → FramedKeys params (checkExpr params e) (exprKeys e)
-    | .null _ => by simpa only [checkExpr, exprKeys] using FramedKeys.nil
-    | .bool _ _ => by simpa only [checkExpr, exprKeys] using FramedKeys.nil
-    | .int _ _ => by simpa only [checkExpr, exprKeys] using FramedKeys.nil
-    | .float _ _ => by simpa only [checkExpr, exprKeys] using FramedKeys.nil
-    | .str _ _ _ => by simpa only [checkExpr, exprKeys] using FramedKeys.nil
-    | .global _ _ => by simpa only [checkExpr, exprKeys] using FramedKeys.nil
-    | .func _ _ args => by simpa only [checkExpr, exprKeys] using framed_exprs args
-    | .list _ items => by simpa only [checkExpr, exprKeys] using framed_exprs items
-    | .map _ items => by simpa only [checkExpr, exprKeys] using framed_mapItems items
-    | .not _ a => by simpa only [checkExpr, exprKeys] using framed_expr a
-    | .neg _ a => by simpa only [checkExpr, exprKeys] using framed_expr a
+  theorem framed_expr : (e : Expr) → FramedKeys params (checkExpr params e) (exprKeys e) (exprLoops e)
+    | .null _ => by simpa only [checkExpr, exprKeys, exprLoops] using FramedKeys.nil
+    | .bool _ _ => by simpa only [checkExpr, exprKeys, exprLoops] using FramedKeys.nil
+    | .int _ _ => by simpa only [checkExpr, exprKeys, exprLoops] using FramedKeys.nil
+    | .float _ _ => by simpa only [checkExpr, exprKeys, exprLoops] using FramedKeys.nil
+    | .str _ _ _ => by simpa only [checkExpr, exprKeys, exprLoops] using FramedKeys.nil
+    | .global _ _ => by simpa only [checkExpr, exprKeys, exprLoops] using FramedKeys.nil
+    | .func _ name args => by
+      simpa only [checkExpr, exprKeys, exprLoops, List.nil_append] using
+        (FramedKeys.loopCheck name args).seq (framed_exprs args)
+    | .list _ items => by simpa only [checkExpr, exprKeys, exprLoops] using framed_exprs items
+    | .map _ items => by simpa only [checkExpr, exprKeys, exprLoops] using framed_mapItems items
+    | .not _ a => by simpa only [checkExpr, exprKeys, exprLoops] using framed_expr a
+    | .neg _ a => by simpa only [checkExpr, exprKeys, exprLoops] using framed_expr a
     | .bin _ _ a b => by
-      simpa only [checkExpr, exprKeys] using (framed_expr a).seq (framed_expr b)
+      simpa only [checkExpr, exprKeys, exprLoops] using (framed_expr a).seq (framed_expr b)
     | .tern _ c a b => by
-      simpa only [checkExpr, exprKeys] using (framed_expr c).seq ((framed_expr a).seq (framed_expr b))
+      simpa only [checkExpr, exprKeys, exprLoops] using (framed_expr c).seq ((framed_expr a).seq (framed_expr b))
     | .dataRef _ key acc => by
-      simp only [checkExpr, exprKeys]
+      simp only [checkExpr, exprKeys, exprLoops]
       exact (FramedKeys.visitKey key).seq (framed_accesses acc).inScope
-  theorem framed_exprs : (es : ExprList) → FramedKeys params (checkExprs params es) (exprsKeys es)
-    | .nil => by simpa only [checkExprs, exprsKeys] using FramedKeys.nil
+  theorem framed_exprs : (es : ExprList) → FramedKeys params (checkExprs params es) (exprsKeys es) (exprsLoops es)
+    | .nil => by simpa only [checkExprs, exprsKeys, exprsLoops] using FramedKeys.nil
     | .cons e r => by
-      simpa only [checkExprs, exprsKeys] using (framed_expr e).seq (framed_exprs r)
-  theorem framed_mapItems : (ms : MapItems) → FramedKeys params (checkMapItems params ms) (mapKeys ms)
-    | .nil => by simpa only [checkMapItems, mapKeys] using FramedKeys.nil
+      simpa only [checkExprs, exprsKeys, exprsLoops] using (framed_expr e).seq (framed_exprs r)
+  theorem framed_mapItems : (ms : MapItems) → FramedKeys params (checkMapItems params ms) (mapKeys ms) (mapLoops ms)
+    | .nil => by simpa only [checkMapItems, mapKeys, mapLoops] using FramedKeys.nil
     | .cons _ e r => by
-      simpa only [checkMapItems, mapKeys] using (framed_expr e).seq (framed_mapItems r)
-  theorem framed_accesses : (as : AccessList) → FramedKeys params (checkAccesses params as) (accessKeys as)
-    | .nil => by simpa only [checkAccesses, accessKeys] using FramedKeys.nil
+      simpa only [checkMapItems, mapKeys, mapLoops] using (framed_expr e).seq (framed_mapItems r)
+  theorem framed_accesses : (as : AccessList) → FramedKeys params (checkAccesses params as) (accessKeys as) (accessLoops as)
+    | .nil => by simpa only [checkAccesses, accessKeys, accessLoops] using FramedKeys.nil
     | .cons (.expr _ _ e) r => by
-      simpa only [checkAccesses, accessKeys] using (framed_expr e).seq (framed_accesses r)
+      simpa only [checkAccesses, accessKeys, accessLoops] using (framed_expr e).seq (framed_accesses r)
     | .cons (.key _ _ _) r => by
-      simpa only [checkAccesses, accessKeys] using FramedKeys.nil.seq (framed_accesses r)
+      simpa only [checkAccesses, accessKeys, accessLoops] using FramedKeys.nil.seq (framed_accesses r)
     | .cons (.index _ _ _) r => by
-      simpa only [checkAccesses, accessKeys] using FramedKeys.nil.seq (framed_accesses r)
+      simpa only [checkAccesses, accessKeys, accessLoops] using FramedKeys.nil.seq (framed_accesses r)
 end
 
-theorem framed_optExpr : (e : Option Expr) → FramedKeys params (checkOptExpr params e) (optKeys e)
-  | none => by simpa only [checkOptExpr, optKeys] using FramedKeys.nil
-  | some e => by simpa only [checkOptExpr, optKeys] using framed_expr e
+theorem framed_optExpr : (e : Option Expr) → FramedKeys params (checkOptExpr params e) (optKeys e) (optLoops e)
+  | none => by simpa only [checkOptExpr, optKeys, optLoops] using FramedKeys.nil
+  | some e => by simpa only [checkOptExpr, optKeys, optLoops] using framed_expr e
 
-theorem framed_exprList : (es : List Expr) → FramedKeys params (checkExprList params es) (listKeys es)
-  | [] => by simpa only [checkExprList, listKeys] using FramedKeys.nil
-  | e :: r => by simpa only [checkExprList, listKeys] using (framed_expr e).seq (framed_exprList r)
+theorem framed_exprList : (es : List Expr) → FramedKeys params (checkExprList params es) (listKeys es) (listLoops es)
+  | [] => by simpa only [checkExprList, listKeys, listLoops] using FramedKeys.nil
+  | e :: r => by simpa only [checkExprList, listKeys, listLoops] using (framed_expr e).seq (framed_exprList r)
 
 theorem framed_dirs (reg : List Check.Template) :
-    (ds : List Directive) → FramedKeys params (checkDirs reg params ds) (dirsKeys ds)
-  | [] => by simpa only [checkDirs, dirsKeys] using FramedKeys.nil
+    (ds : List Directive) → FramedKeys params (checkDirs reg params ds) (dirsKeys ds) (dirsLoops ds)
+  | [] => by simpa only [checkDirs, dirsKeys, dirsLoops] using FramedKeys.nil
   | d :: r => by
-    simpa only [checkDirs, dirsKeys] using (framed_exprList d.args).inScope.seq (framed_dirs reg r)
+    simpa only [checkDirs, dirsKeys, dirsLoops] using (framed_exprList d.args).inScope.seq (framed_dirs reg r)
 
 end
 
